@@ -1,7 +1,7 @@
 """C08 — evaluation is pure and repeatable; all query APIs agree.
 
 E2 on the real Executor (get_cell / get_cells / get_sheet, numeric and A1+title addressing) over the class the real Parser
-emits for the two-sheet workbook of C04.  The code under test hashes every value it is given (sets of Cell objects), so
+emits for the three-sheet workbook of C04.  The code under test hashes every value it is given (sets of Cell objects), so
 nothing stays symbolic past the first call: the solver (z3) is used to enumerate the bounded schedule space exhaustively
 (DFS with blocking constraints), each schedule being executed natively against the real code."""
 import time
@@ -27,7 +27,7 @@ import copy
 from openpyxl.utils.cell import coordinate_from_string, column_index_from_string
 
 Q8 = [0, 2, 3, 4, 8, 11, 12, 14]     # indices into QUERY: A1, B1, B2, B3, C3, A6, E1, T!B1
-USED = [(4, 4), (2, 1)]              # (last_column, last_row) of S and T in the workbook
+USED = [(4, 4), (2, 1), (2, 1)]      # (last_column, last_row) of S, T and '1' in the workbook
 
 def rc(a):
     col, row = coordinate_from_string(a)
@@ -70,17 +70,36 @@ def snapshot(ex):
     return (sorted((c.uid, repr(c.value)) for c in ex._cells), copy.deepcopy(ex.get_executed_class().get_sheets_size()),
             copy.deepcopy(ex._sheets_size))
 
+# the clock of the generated class is a stub: the local date can change between two queries
+import datetime as _dt
+NOW = [2024, 5, 17]
+class _StubDateNS:
+    @staticmethod
+    def today():
+        return _dt.date(NOW[0], NOW[1], NOW[2])
+class _Shim:
+    def __getattr__(self, k):
+        return _StubDateNS if k == 'date' else getattr(_dt, k)
+if K is not None:
+    K.__dict__['_today'].__func__.__globals__['datetime'] = _Shim()
+
 def schedule(t1, k1, v, q1, k2, q2):
     """None when the schedule behaves, else a description"""
+    NOW[2] = 17
     ex = Executor().set_executed_class(class_object=K)
     ex.set_cells([mkcell(TARGETS[t1][0], TARGETS[t1][1], bool(q1 % 2), v)])
     before = snapshot(ex)
     first = do(ex, k1, q1, t1)
+    NOW[2] = 18                     # midnight passes between the two queries
     got = do(ex, k2, q2, t1)
     ref = fresh(t1, v, q2)
     si, a = QUERY[q2]
     r, c = rc(a)
     lc, lr = expected_size(si, t1)
+    ex2 = Executor().set_executed_class(class_object=K)        # a second executor on the same class object
+    sizes2 = [(d['last_column'], d['last_row']) for d in ex2.get_executed_class().get_sheets_size()]
+    if sizes2 != USED:
+        return f'a new executor on the same class reports sizes {sizes2}, the workbook has {USED}'
     if snapshot(ex) != before:
         return f'querying changed overrides or sizes: {before} -> {snapshot(ex)}'
     if k2 >= 3:
@@ -123,7 +142,7 @@ def run(report, tier, seed):
         report.violation('translate', f, err)
     if NS.get('K') is None:
         return
-    targets = range(7)
+    targets = range(len(NS['TARGETS']))
     jobs = [(f't{t1}_k{k1}', _job, (t1, k1, 10 ** 6, 240 if tier == 'quick' else 1200)) for t1 in targets for k1 in range(5)]
     res = e2.run_jobs(jobs, NCPU, deadline=600 if tier == 'quick' else 3000)
     total = 0
@@ -152,9 +171,10 @@ def run(report, tier, seed):
     report.extra['exhaustive'] = all(c['verdict'] == 'holds' for c in report.conditions)
     report.encoded('Executor.get_cell', 'Executor.get_cells', 'Executor.get_sheet', 'Executor.set_cells', 'Executor._set_cells_to_executed_instance',
                    'handle_cell', 'Cell', 'ExcelInPython._cell_preprocessor', 'ExcelInPython.exec_function_in', 'ExcelInPython.get_sheets_size')
-    report.bound('workbook of C04 (2 sheets, 14 cells); one override: 7 targets x value {0,1} x addressing style; first query: 5 kinds x 15 cells; second '
-                 'query: 5 kinds x 15 cells  (7*5*2*15*5*15 = 78 750 schedules, all enumerated)')
+    report.bound('workbook of C04 (2 sheets, 14 cells); one override: 8 targets x value {0,1} x addressing style; first query: 5 kinds x 15 cells; second '
+                 'query: 5 kinds x 15 cells  (8*5*2*18*5*18 = 129 600 schedules, all enumerated)')
     report.assume('outside the claim: more than two queries after the override, several overrides (C04 covers write histories), concurrency',
+                  'datetime.date.today() of the generated class is a stub; the date advances by one day between the two queries',
                   'the solver enumerates the finite schedule space (every value is hashed by the code under test, so nothing can stay symbolic); '
                   'each schedule runs natively on the real code')
 
